@@ -77,6 +77,57 @@ def base_exception_children(ctx):
             ctx.fail(case, 'a child failed with %r at %r; the block raised %r at %r' % (err, d, e, t), family='base-exception-children')
 
 
+def nested_failures_flat_view(ctx, n):
+    """directed family (direct API): scopes nested two to four deep, several children of the innermost one failing in one time
+    step: the outermost block raises Concurrent of Concurrent ...; its flat view (`.flattened()`) carries exactly the leaf failures,
+    each once, by identity, and nothing that is itself a Concurrent"""
+    import usim
+    rng = ctx.rng
+    for _ in range(n):
+        depth = rng.choice([2, 3, 4])
+        width = [rng.choice([1, 2]) for _ in range(depth)]
+        leaves = []
+
+        async def failing(e):
+            await (usim.time + 1)
+            raise e
+
+        async def level(k):
+            async with usim.Scope() as s:
+                if k + 1 < depth:
+                    s.do(level(k + 1))
+                else:
+                    # (failures on the innermost level only: a failure on an outer level in the same time step would close
+                    # the nested level before ITS failure has surfaced - it takes one turn per level - and rightly leave it out)
+                    for _ in range(width[k] + 1):
+                        e = rng.choice([KeyError, IndexError, ValueError, TypeError])(len(leaves))
+                        leaves.append(e)
+                        s.do(failing(e))
+                await (usim.time + 5)
+        got = []
+
+        async def main():
+            try:
+                await level(0)
+            except usim.Concurrent as e:
+                got.append(e)
+        case = {'nested_failures': dict(depth=depth, width=width)}
+        try:
+            usim.run(main())
+        except BaseException as e:   # noqa
+            ctx.fail(case, 'raised %r' % (e,), family='nested-failures')
+            continue
+        ctx.count(case, nontrivial=depth > 2)
+        ctx.bump('family:nested-failures')
+        if not got:
+            ctx.fail(case, 'the outermost block raised nothing', family='nested-failures')
+            continue
+        flat = list(got[0].flattened().children)
+        if any(isinstance(x, usim.Concurrent) for x in flat) or sorted(map(id, flat)) != sorted(map(id, leaves)):
+            ctx.fail(case, 'the flat view of the failure has the children %r; the leaf failures are %r' % (flat, leaves),
+                     family='nested-failures')
+
+
 def _leaked_signal(sc, trace, probes, info):
     """of C03's monitor only: an internal signal leaving run() (a scope ending twice shows up like this)"""
     from harness import monitors
@@ -87,6 +138,7 @@ def run(ctx):
     from harness import monitors
     monitors.MONITORS['C05s'] = _leaked_signal
     base_exception_children(ctx)
+    nested_failures_flat_view(ctx, ctx.n(30, 400))
     machine_prop.run(ctx, FAMILIES, MONITORS + ['C05s'], extra_scenarios=double_failures(ctx.rng, ctx.n(40, 800)))
     # scopes around borrowed resources (acquiring and releasing suspend, also while a scope is being interrupted):
     # "promptly" for until-blocks is C07's rule (block left at the time its notification fires)
